@@ -10,7 +10,9 @@
    descriptors / mappings / files / goroutines).
 3. User-level projections of the same behaviours run against the untouched epoll dispatcher with the peer severed
    in-process or SIGKILLed as a child process (oracles only).
-4. Witnesses of the known-finding classes are replayed on the real code."""
+4. Witnesses of the finding classes are replayed on the real code (raw schedules, one gate-staged interleaving in an
+   instrumented build, two inside a child process because they kill it).
+Env VERIF_KNOWN_EXTRA=<file>: additional `known:` lines (testing aid for proposed lines not yet in known-findings.txt)."""
 import json, os, random, re, shutil, tempfile, threading, time
 from vlib import tlc, tlaval, gorun, core
 
@@ -241,11 +243,6 @@ def report(ck, results, job, known, counts, witness=False):
     return conforming
 
 
-def project_real(sched, peer, end, rng):
-    steps = [dict(a=s['a'], s=s['s'], t=s['t']) for s in sched['steps'] if s['a'] in USER_LEVEL]
-    return steps
-
-
 WITNESS = {
     # OnData is running when the peer dies: the teardown half-closes the stream, the deferred close then makes no callback
     'no-close-callback-when-busy': dict(streams=2, cb=[2], steps=[('PeerSend', 2, ''), ('Events', 0, ''), ('PeerDies', 0, ''),
@@ -355,7 +352,7 @@ def run(prop, tier, seed, replay=None):
                      C([1], [], ['c1', 'c2'], F, 1, 0, F, F, 1), C([1, 2], [2], ['c1'], F, 1, 1, T, F, 1)]
         coarse = [C([1, 2], [2], ['c1'], T, 1, 1, T, F, 2), C([1], [], ['c1', 'c2'], T, 1, 0, T, T, 2),
                   C([1, 2], [1, 2], ['c1'], T, 2, 1, F, F, 2)]
-        limit = 700
+        limit = 1500
 
     # ---- design check of every interleaving (fine grained) and the gate witness run beside the replay
     fine_out, gate_out, graphs = [], [], {}
